@@ -148,8 +148,22 @@ Inductive ctxmode :=
 | CLive           (* the *Ctx variant, context not done *)
 | CDone.          (* the *Ctx variant, context already done *)
 
-(* what the request does; the caller's predicate accepts nil and the "acceptable" error *)
-Inductive outcome := OOk | OErrU | OErrA | OPanic.
+(* what the request does.  Besides nil / an ordinary error / an error the caller's predicate
+   accepts / a panic, the request may return (or panic with) VALUES that collide with the
+   ones the breaker itself produces: ErrServiceUnavailable bare or %w-wrapped (a nested or
+   downstream breaker that is open), context.Canceled / DeadlineExceeded although the
+   call's own context is live, the very value the fallback returns.  The caller's
+   predicate (DoWithAcceptable, DoWithFallbackAcceptable) accepts nil, the "acceptable"
+   error, the wrapped ErrServiceUnavailable and context.Canceled; the default predicate
+   accepts nil only. *)
+Inductive outcome :=
+| OOk | OErrU | OErrA | OPanic
+| OErrSU          (* returns breaker.ErrServiceUnavailable itself; unacceptable *)
+| OErrSUW         (* returns fmt.Errorf("..: %w", ErrServiceUnavailable); acceptable to the caller's predicate *)
+| OCanceled       (* returns context.Canceled (live context); acceptable to the caller's predicate *)
+| ODeadline       (* returns context.DeadlineExceeded (live context); unacceptable *)
+| OErrFB          (* returns the value the fallback would return; unacceptable *)
+| OPanicSU.       (* panic(ErrServiceUnavailable) *)
 
 Record call := mkCall
   { k_entry : entry; k_ctx : ctxmode; k_out : outcome;
@@ -157,11 +171,17 @@ Record call := mkCall
     k_dur : Z;     (* the request (or the caller between Allow and Accept/Reject) takes dur *)
     k_u : Q }.     (* the draw r.Float64() of this call, if one is made *)
 
+(* which VALUE came back (identity of the Go value, not who produced it): a rejected call
+   and an admitted call whose request returned ErrServiceUnavailable both give
+   RUnavailable - they differ in how often the request ran *)
 Inductive result :=
 | RNil | RUnavailable | RErrU | RErrA | RPanic
 | RFallback       (* the value returned by the fallback *)
-| RCtxDone        (* ctx.Err() *)
-| ROther.         (* anything else (never produced by the model) *)
+| RCtxDone        (* context.Canceled: ctx.Err() of the done context, or the request's own *)
+| ROther          (* anything else (never produced by the model) *)
+| RErrSUW         (* the request's wrapped ErrServiceUnavailable *)
+| RDeadline       (* context.DeadlineExceeded *)
+| RPanicSU.       (* panic value ErrServiceUnavailable *)
 
 Definition has_fallback (e : entry) : bool :=
   match e with EDoFb | EDoFbAcc => true | _ => false end.
@@ -174,13 +194,18 @@ Definition counts_as_success (e : entry) (o : outcome) : bool :=
   | EAllowAccept => true
   | EAllowReject => false
   | EDo | EDoFb => match o with OOk => true | _ => false end                 (* defaultAcceptable *)
-  | EDoAcc | EDoFbAcc => match o with OOk | OErrA => true | _ => false end   (* caller's predicate *)
+  | EDoAcc | EDoFbAcc =>                                                     (* caller's predicate *)
+    match o with OOk | OErrA | OErrSUW | OCanceled => true | _ => false end
   end.
 
 (* what a call that was let through returns / raises *)
 Definition result_of (e : entry) (o : outcome) : result :=
   if is_allow e then RNil
-  else match o with OOk => RNil | OErrU => RErrU | OErrA => RErrA | OPanic => RPanic end.
+  else match o with
+       | OOk => RNil | OErrU => RErrU | OErrA => RErrA | OPanic => RPanic
+       | OErrSU => RUnavailable | OErrSUW => RErrSUW | OCanceled => RCtxDone
+       | ODeadline => RDeadline | OErrFB => RFallback | OPanicSU => RPanicSU
+       end.
 
 Record obs := mkObs
   { o_res : result;
